@@ -332,6 +332,14 @@ theorem later_conflict_rejected_update {s : St} (hg : Good s) (m : Core.UpdMsg) 
     ((coreOp s (.update m) ds).2 ≠ .ok → (coreOp s (.update m) ds).1 = s) ∧ AgreeInv (coreOp s (.update m) ds).1 :=
   ⟨coreOp_reject_unchanged s _ ds, (good_coreOp hg _ ds).2⟩
 
+/-- the same for every reachable state (the hypothesis `Good s` discharged by `run_good`): after any run that satisfies
+    the side condition of `agreement_inv`, whatever state update comes next -/
+theorem later_conflict_rejected_update_reachable (p : Core.Params) (ops : List Op) (hs : SafeRun (init p) ops)
+    (m : Core.UpdMsg) (ds : List (Nat × Option Nat)) :
+    ((coreOp (run (init p) ops) (.update m) ds).2 ≠ .ok → (coreOp (run (init p) ops) (.update m) ds).1 = run (init p) ops) ∧
+    AgreeInv (coreOp (run (init p) ops) (.update m) ds).1 :=
+  later_conflict_rejected_update (run_good ops (init p) (init_good p) hs) m ds
+
 -- ------------------------------------------------------------------------------------------------ the third field
 
 /- The property names three fields: state root, timestamp, next-sequencer hash.  `Agrees` / `AgreeInv` carry the first
